@@ -14,6 +14,22 @@ def main(tier, seed):
     jobs = [(TG.w_special, (exe, doms[i:i + 3000], "special")) for i in range(0, len(doms), 3000)]
     idoms = TG.special_idn_domains(tier, rng)
     jobs += [(TG.w_special_idn, (exe, idoms[i:i + 1500], "special-idn")) for i in range(0, len(idoms), 1500)]
+    # the LABELS_ALLOW_UNDERSCORE build: names with '_' in the labels further left are valid host names there and are classified by
+    # the same rule; names without '_' are classified as in the default build
+    exe_us = cx.exe("asan-underscore", defs=["LABELS_ALLOW_UNDERSCORE"])
+    us = set()
+    for d in doms[:: (9 if tier == "quick" else 2)]:
+        labs = d.split(b".")
+        us.add(d)
+        for v in (b"_dmarc." + d, b"old_days." + d, b"a_." + d, b"_." + d):
+            us.add(v)
+        if len(labs) >= 2:
+            l0 = labs[0]
+            us.add(b".".join([l0[:len(l0) // 2] + b"_" + l0[len(l0) // 2:]] + labs[1:]))
+            us.add(b".".join([b"_" + l0[1:]] + labs[1:]) if len(l0) > 1 else d)
+    from .. import oracle_domain as OD
+    us = sorted(d for d in us if OD.host_accepts(d, True) and not d.endswith(b"."))
+    jobs += [(TG.w_special, (exe_us, us[i:i + 3000], "special/underscore-build")) for i in range(0, len(us), 3000)]
     for part in core.pmap(_run, jobs):
         rep.merge(part)
     c = rep.counters
@@ -23,7 +39,7 @@ def main(tier, seed):
                       "every reserved suffix and every one-edit neighbour (insert/delete/substitute over [a-z0-9-.]) bare and "
                       "behind 1-3 labels of length %s and fixed fillers (example, test, abcdefg, ...), all case patterns of the "
                       "reserved part; is_special_domain directly and is_<rfc>_email(tld on) in 4 modes; distinct = distinct "
-                      "domains" % ("1-63" if tier != "quick" else "1-11,62,63"),
+                      "domains; a sample also in the LABELS_ALLOW_UNDERSCORE build with '_' in the labels further left" % ("1-63" if tier != "quick" else "1-11,62,63"),
                       {"builds": cx.builds_info()})
 
 
